@@ -181,10 +181,10 @@ def replay(rp):
 
 def plan(tier, seed):
     if tier == 'quick':
-        n1, n2 = 6, 6
+        n1, n2 = 24, 24
         jobs = [{'maker': 'c19_mem', 'ncases': n1, 'ccs': BE_CCS + LE_CCS, 'nsteps': 100, 'shrink_budget': 20, 'reduce_budget': 10} for _ in range(10)]
         jobs += [{'maker': 'c19_atomic', 'ncases': n2, 'ccs': BE_CCS + LE_CCS, 'nsteps': 120, 'shrink_budget': 20, 'reduce_budget': 10} for _ in range(10)]
-        jobs += [{'maker': 'c19_width', 'ncases': 8, 'ccs': BE_CCS, 'shrink_budget': 20, 'reduce_budget': 10} for _ in range(6)]
+        jobs += [{'maker': 'c19_width', 'ncases': 24, 'ccs': BE_CCS, 'shrink_budget': 20, 'reduce_budget': 10} for _ in range(6)]
         jobs += [{'const': True, 'ncases': 6, 'nconst': 300} for _ in range(6)]
         return jobs
     jobs = [{'maker': 'c19_mem', 'ncases': 150, 'ccs': BE_CCS + LE_CCS, 'nsteps': 300, 'shrink_budget': 30, 'reduce_budget': 20} for _ in range(20)]
